@@ -283,6 +283,16 @@ pub mod spec {
         #[verifier::external_body] fn cast_f32_m(self) -> (r: f32) { self as f32 }
     }
     pub fn cast_f32<T: CastF32>(x: T) -> (r: f32) ensures r == x.to_f32_spec() { x.cast_f32_m() }
+    /// views with a fixed element type: naming a `vec![]` local through them also tells rustc its element type
+    pub open spec fn seq_f32(v: &Vec<f32>) -> Seq<f32> { v@ }
+    pub open spec fn seq_i32(v: &Vec<i32>) -> Seq<i32> { v@ }
+    /// element i of the documented sine wave A*sin(2*pi*x*i + phi), with the f32 operations in the order the formula is written
+    pub open spec fn sine_elem(a: f32, x: f32, phi: f32, i: usize) -> f32 {
+        f32_mul(a, f_sin(f32_add(f32_mul(f32_mul(f32_mul(2.0f32, f_pi()), x), usize_to_f32(i)), phi)))
+    }
+    pub uninterp spec fn f_pi() -> f32;
+    #[verifier::external_body]
+    pub fn f32_pi() -> (r: f32) ensures r == f_pi() { std::f32::consts::PI }
     pub uninterp spec fn f32_to_usize_spec(x: f32) -> usize;
     #[verifier::external_body]
     pub fn f32_to_usize(x: f32) -> (r: usize) ensures r == f32_to_usize_spec(x) { x as usize }
